@@ -547,6 +547,8 @@ pub fn build_module(ctx: Arc<HCtx>) -> RpcModule<HCtx> {
 		ext_answer(&ext)
 	})
 	.unwrap();
+	// (not part of the judged method set: tells which connection id the transport gave the request)
+	m.register_method("conn_id", |_, _, ext| ext.get::<jsonrpsee_core::server::ConnectionId>().map(|c| c.0)).unwrap();
 	// --- handlers whose (successful) result cannot be serialised: [k] = how many good elements come first
 	m.register_method("unser_sync", |p, c, _| {
 		c.record("unser_sync", &p, "run");
